@@ -1156,5 +1156,19 @@ def r5_8(run):
     run.floor(3)
 
 
+def r5_9(run):
+    """"within the iteration budget in force": the budget is what the three option layers say at the time of the call.  Resolving the
+    options must not leave traces in a stored layer (an `iter` shorthand expanded *into* net.user_pf_options would overrule a
+    smaller `iter` set later) -- shared with C14 R14.1 / R14.2 (abstract interpretation of init_options over all presence patterns;
+    the obligations keep their R14 labels)"""
+    from .c14 import r14_1
+    run.cur_rule = "R14.1"
+    try:
+        r14_1(run)
+    finally:
+        run.cur_rule = "R5.9"
+    run.floor(0)
+
+
 RULES = [("R5.1", r5_1), ("R5.2", r5_2), ("R5.3", r5_3), ("R5.4", r5_4), ("R5.5", r5_5), ("R5.6", r5_6),
-         ("R5.7", r5_7), ("R5.8", r5_8)]
+         ("R5.7", r5_7), ("R5.8", r5_8), ("R5.9", r5_9)]
